@@ -96,7 +96,7 @@ FEATURES = {
     'setop-nested': 'a UNION / INTERSECT / EXCEPT node that is not the root (parenthesised set operation as sub-query or operand)',
     'setop-right-nested': 'the right operand of a set operation is itself a set operation (was written in parentheses)',
     'alias-dotted': 'an alias identifier that does not have exactly one part',
-    'func-quoted': 'a function whose name is not a plain word',
+    'func-quoted': 'a function whose name is not a plain word, or is one of the clause / operator keywords (was written quoted)',
     'star-part': 'a Star is a part of an identifier that has other parts, or is not the last part',
     'star-name': 'a Star (or an identifier made of a Star) occurs outside a SELECT target list / function argument',
     'str-quote': "a string value contains a single quote",
@@ -113,6 +113,7 @@ FEATURES = {
     'offset-bare': 'a SELECT with OFFSET but no WHERE / GROUP BY / HAVING / ORDER BY / LIMIT (OFFSET directly follows a target or table)',
     'native-query': 'a NativeQuery / raw embedded query text',
     'prints-None': "the printed text contains the word None outside quotes",
+    'prints-uescape': 'the printed text contains a JSON \\uXXXX escape (non-ASCII text printed by json.dumps)',
     'prints-repr': 'the printed text contains a Python repr leak (`Identifier:<`, `Object(`, `Constant:<`, `{params_str}`)',
 }
 
@@ -238,7 +239,7 @@ def features(dialect, text, tree, printed):
         elif cls == 'Interval':
             fs.add('interval')
         elif cls == 'Function':
-            if not isinstance(n.op, str) or not WORD.fullmatch(n.op):
+            if not isinstance(n.op, str) or not WORD.fullmatch(n.op) or n.op.upper() in ('SELECT', 'FROM', 'WHERE', 'AND', 'OR', 'NOT', 'IN', 'IS', 'AS', 'BY', 'ON', 'SET'):
                 fs.add('func-quoted')
         elif cls in ('Union', 'Intersect', 'Except'):
             if parent is not None:
@@ -294,6 +295,8 @@ def features(dialect, text, tree, printed):
         bare = re.sub(r'`[^`]*`', '``', bare)
         if re.search(r'\bNone\b', bare):
             fs.add('prints-None')
+        if re.search(r'\\u[0-9a-fA-F]{4}', printed):
+            fs.add('prints-uescape')
         if re.search(r'[A-Za-z]+:<|Object\(|\{params_str\}|<mindsdb_sql|\[Identifier|\[Constant', bare):
             fs.add('prints-repr')
     toks = tokens(dialect, text)
